@@ -62,10 +62,20 @@ use crate::{
     nodes::{
         DecimalNumber, Expression, FieldExpression, FunctionCall, HexNumber, Identifier,
         StringExpression, TableEntry, TableExpression, TableFieldEntry, TableIndexEntry,
-        TupleArguments,
+        TupleArguments, UnaryExpression, UnaryOperator,
     },
     process::utils::is_valid_identifier,
 };
+
+/// A negative value is written with a minus sign: build it as a unary expression so that the
+/// generators know it is not an atom (`-2 ^ x` is `-(2 ^ x)`, `-2..x` is a malformed number).
+fn number_expression(value: f64) -> Expression {
+    if value.is_sign_negative() && !value.is_nan() {
+        UnaryExpression::new(UnaryOperator::Minus, DecimalNumber::new(-value)).into()
+    } else {
+        DecimalNumber::new(value).into()
+    }
+}
 
 enum SerializeOperation {
     Table(Vec<TableEntry>),
@@ -224,7 +234,7 @@ impl ser::Serializer for &mut Serializer {
     }
 
     fn serialize_i64(self, v: i64) -> Result<()> {
-        self.process(DecimalNumber::new(v as f64).into())
+        self.process(number_expression(v as f64))
     }
 
     fn serialize_u8(self, v: u8) -> Result<()> {
@@ -248,7 +258,7 @@ impl ser::Serializer for &mut Serializer {
     }
 
     fn serialize_f64(self, v: f64) -> Result<()> {
-        self.process(DecimalNumber::new(v).into())
+        self.process(number_expression(v))
     }
 
     fn serialize_char(self, v: char) -> Result<()> {
